@@ -77,6 +77,11 @@ def leg_m(wd, tier):
         raise vlib.Infra("the implementation-shaped AllowCheck/AddPeer split was expected to violate PeerCaps in TLC, got exit=%s violated=%s\n%s"
                          % (r.exit, r.violated, r.out[-1500:]))
     log("  M: DevCapCheckThenAct (allowConnect counts, addPeer inserts later): TLC finds the PeerCaps counterexample (%d states)" % r.distinct)
+    r = vlib.run_tlc(wd, "MCLimits", "Limits_conn_sweep.cfg", workers=2, timeout=600)
+    if r.exit == 0 or not (r.error and "Temporal propert" in r.error and "StopReturns" in r.error):
+        raise vlib.Infra("the implementation-shaped teardown (peers closed once, addPeer inserts later) was expected to violate StopReturns in TLC, got exit=%s %s\n%s"
+                         % (r.exit, r.error, r.out[-1500:]))
+    log("  M: DevSweepOnce (Run closes the peers once, addPeer still inserts afterwards): TLC finds the StopReturns counterexample under fairness (%d states)" % r.distinct)
     return out
 
 
